@@ -47,6 +47,95 @@ func (l *lockedBytes) WriteTo(w io.Writer) (int64, error) {
 	return l.r.WriteTo(w)
 }
 
+// chunkedWriterTo is an in-memory source of the "chunk queue / rope" kind: it
+// has Read, Len and WriteTo like bytes.Reader, but its WriteTo hands the data
+// over in several Write calls (one per internal chunk), which io.WriterTo
+// allows. Safe for concurrent use.
+type chunkedWriterTo struct {
+	mu    sync.Mutex
+	data  []byte
+	pos   int
+	chunk int
+}
+
+func (c *chunkedWriterTo) Read(p []byte) (int, error) {
+	c.mu.Lock()
+	defer c.mu.Unlock()
+	if c.pos >= len(c.data) {
+		return 0, io.EOF
+	}
+	n := copy(p, c.data[c.pos:])
+	c.pos += n
+	return n, nil
+}
+
+func (c *chunkedWriterTo) Len() int {
+	c.mu.Lock()
+	defer c.mu.Unlock()
+	return len(c.data) - c.pos
+}
+
+func (c *chunkedWriterTo) WriteTo(w io.Writer) (int64, error) {
+	var total int64
+	for {
+		c.mu.Lock()
+		if c.pos >= len(c.data) {
+			c.mu.Unlock()
+			return total, nil
+		}
+		end := c.pos + c.chunk
+		if end > len(c.data) {
+			end = len(c.data)
+		}
+		p := c.data[c.pos:end]
+		c.pos = end
+		c.mu.Unlock()
+		n, err := w.Write(p)
+		total += int64(n)
+		if err != nil {
+			return total, err
+		}
+		if n != len(p) {
+			return total, io.ErrShortWrite
+		}
+	}
+}
+
+// fifoSource is a driver-side queue in front of a device: Read delivers the
+// whole stream in short pieces, Len reports the bytes buffered right now (never
+// more than the queue holds), not the bytes the stream still has.
+type fifoSource struct {
+	mu   sync.Mutex
+	data []byte
+	pos  int
+	cap  int
+}
+
+func (f *fifoSource) Read(p []byte) (int, error) {
+	f.mu.Lock()
+	defer f.mu.Unlock()
+	if f.pos >= len(f.data) {
+		return 0, io.EOF
+	}
+	n := len(p)
+	if n > 997 {
+		n = 997
+	}
+	n = copy(p[:n], f.data[f.pos:])
+	f.pos += n
+	return n, nil
+}
+
+func (f *fifoSource) Len() int {
+	f.mu.Lock()
+	defer f.mu.Unlock()
+	n := len(f.data) - f.pos
+	if n > f.cap {
+		n = f.cap
+	}
+	return n
+}
+
 // carrier is a source built around the stream of a run.
 type carrier struct {
 	src      io.Reader
@@ -76,6 +165,12 @@ func buildCarrier(c *RunConfig, st *Stream, sim *SimSource) (*carrier, error) {
 			}
 		}
 		return &carrier{src: lb, consumed: func() int64 { return lb.Size() - int64(lb.Len()) - int64(off) }, cleanup: func() {}}, nil
+	case "writerto":
+		cw := &chunkedWriterTo{data: st.data, chunk: []int{6000, 1000, 4097, 125001}[off%4]}
+		return &carrier{src: cw, consumed: func() int64 { cw.mu.Lock(); defer cw.mu.Unlock(); return int64(cw.pos) }, cleanup: func() {}}, nil
+	case "fifo":
+		ff := &fifoSource{data: st.data, cap: 4096}
+		return &carrier{src: ff, consumed: func() int64 { ff.mu.Lock(); defer ff.mu.Unlock(); return int64(ff.pos) }, cleanup: func() {}}, nil
 	case "bufio":
 		br := bufio.NewReaderSize(sim, 4096)
 		return &carrier{src: br, consumed: func() int64 {
